@@ -120,11 +120,14 @@ def _r1(ck: Checker, prog: Program):
     n_notes = len(ex.notes)
     ex.run([st for st in after if not isinstance(st, ast.Return)])
     final = ex.T.env.get(acc_name)
-    obj = ex.T.env.get(ts)
-    L, fs, K = sp.Symbol(f"{obj}.n_samples"), sp.Symbol(f"{obj}.fs"), sp.Function("len")(ex.T.sym(f.params[0]))
+    # every copy of the window has the window's length and sampling rate
+    L, fs, K = sp.Symbol("L", positive=True), sp.Symbol("fs", positive=True), sp.Function("len")(ex.T.sym(f.params[0]))
+    if final is not None:
+        final = final.replace(lambda e: e.is_Symbol and e.name.startswith("<") and e.name.endswith(".n_samples"), lambda e: L)
+        final = final.replace(lambda e: e.is_Symbol and e.name.startswith("<") and e.name.endswith(".fs"), lambda e: fs)
     ones = sp.Function("ones_like")
     mean = sp.Function("mean")
-    cands = [mean(TAPER(ones(X)) ** 2) for X in (A, TAPER(A))]
+    cands = [mean(TAPER(ones(X)) ** 2) for X in (A, TAPER(A))] + [mean(TAPER(sp.Function("ones")(L)) ** 2)]
     ratio = sp.simplify(final / P0) if final is not None else None
     hit = ratio is not None and any(equal(ratio, 2 / (w2 * L * fs * K)) for w2 in cands)
     if hit:
